@@ -526,6 +526,8 @@ class Gen:
                 b = a + r.randint(1, 2)
                 items.append(L.scan("range", a, b))
                 lo = b + 1
+        if r.random() < 0.3:
+            r.shuffle(items)     # the same operands in another order denote the same lines
         return L.scan("plus", items=items)
 
 
